@@ -1,6 +1,6 @@
 /-
 C03 — the constructor's effective switches satisfy `Sym.WF`; a new matrix object; the concrete worlds used by the
-negative witness and the non-vacuity examples of `Props.lean`.
+negative witness and the non-vacuity examples of `Props.lean`; the axial slab of a row.
 -/
 import StirVerif.C03.ProofsCache
 
@@ -53,31 +53,48 @@ theorem effective_WF (V : Int) (hV : 0 < V) (f : Flags) (sq phi0 tof xy0 : Bool)
 /-- a new matrix object (`set_defaults`: caching on, basic bins only, not set up) -/
 def PM.fresh (p : Params) : PM G α := { params := p }
 
-/-! ### the world of the negative witness: `set_up` for an image that differs in its index range only -/
-
 def ySimple : Sym :=
   { V := 8, d90 := false, d180 := false, swapSeg := false, swapS := false, shiftZ := false,
     nppr := 2, nppa := fun _ => 1, delta2 := fun _ => 0, zoff4 := fun _ => 0 }
 
-/-- two geometries (`false`: small image, `true`: large image) with the same projection data, voxel size and origin;
-    the ray tracer gives the value 0 resp. 1 to its single voxel -/
-def wBad : World Bool Nat :=
-  { symOf := fun _ _ => ySimple
-    compute := fun g _ _ => some [(⟨0, 0, 0⟩, if g then 1 else 0)]
-    fits := fun _ => true
-    sameDataVoxelOrigin := fun _ _ => true }
-
 def pDefault : Params := { flags := ⟨true, true, true, true, true⟩, ntl := 1, restrictFOV := true, actualBoundaries := false }
-
-def evsBad : List (Ev Bool) := [.setUp false, .get ⟨0, 0, 0, 0, 0⟩, .setUp true, .get ⟨0, 0, 0, 0, 0⟩]
-
-theorem runBad_eq : (PM.fresh pDefault : PM Bool Nat).run wBad none evsBad =
-    [(⟨0, 0, 0, 0, 0⟩, some (false, pDefault), ⟨⟨0, 0, 0, 0, 0⟩, [(⟨0, 0, 0⟩, 0)]⟩),
-     (⟨0, 0, 0, 0, 0⟩, some (true, pDefault), ⟨⟨0, 0, 0, 0, 0⟩, [(⟨0, 0, 0⟩, 0)]⟩)] := by rfl
 
 theorem ySimple_WF : ySimple.WF :=
   ⟨by decide, fun h => absurd h (by decide), fun h => absurd h (by decide), fun h => absurd h (by decide)⟩
 
+/-! ### `set_up` again for an image that differs in its index range only (the case repaired in `set_up`) -/
+
+/-- two geometries (`false`: small image, `true`: large image) with the same projection data, voxel size and origin;
+    the ray tracer gives the value 0 resp. 1 to its single voxel -/
+def wRange : World Bool Nat :=
+  { symOf := fun _ _ => ySimple
+    compute := fun g _ _ => some [(⟨0, 0, 0⟩, if g then 1 else 0)]
+    fits := fun _ => true }
+
+def evsRange : List (Ev Bool) := [.setUp false, .get ⟨0, 0, 0, 0, 0⟩, .setUp true, .get ⟨0, 0, 0, 0, 0⟩, .setUp true, .get ⟨0, 0, 0, 0, 0⟩]
+
+/-! ### the world of the negative witness "voxel outside the image in z" -/
+
+/-- axial geometry of a 3-ring scanner, span 1, with the standard image: 5 planes `0..4` of half the ring spacing -/
+def endGeo : AxGeo :=
+  { nppr := 2, nppa := fun _ => 2, delta2 := fun s => 2 * s, minAx := fun _ => 0,
+    maxAx := fun s => 2 - iabs s, minZ := 0, maxZ := 4, originZ := 0 }
+
+/-- … with 8 views and only `shift_z` switched on -/
+def yEnd : Sym := Sym.make 8 ⟨false, false, false, false, true⟩ endGeo
+
+/-- the ray tracer's answer for the direct LORs of ring 0 at view 0 as observed on the real code
+    (`add_adjacent_z`: the plane of the ring with weight 2, the two neighbouring planes with weight 1 — in units
+    of a quarter), one voxel per plane kept -/
+def wEnd : World Unit Nat :=
+  { symOf := fun _ _ => yEnd
+    compute := fun _ _ b => some [(⟨b.ax * 2 - 1, 0, 0⟩, 1), (⟨b.ax * 2, 0, 0⟩, 2), (⟨b.ax * 2 + 1, 0, 0⟩, 1)]
+    fits := fun _ => true }
+
+def pShiftZ : Params := { flags := ⟨false, false, false, false, true⟩, ntl := 1, restrictFOV := true, actualBoundaries := false }
+
+/-- "the voxel lies in a plane of the image" -/
+def AxGeo.hasPlane (g : AxGeo) (c : Vox) : Bool := decide (g.minZ ≤ c.z ∧ c.z ≤ g.maxZ)
 
 /-! ### a world for the non-vacuity examples: two really different geometries, all switches on -/
 
@@ -91,8 +108,7 @@ theorem ySample_WF : ySample.WF :=
 def wGood : World Bool Nat :=
   { symOf := fun _ _ => ySample
     compute := fun g _ b => some [(⟨b.ax, b.view, b.tang⟩, if g then 1 else 0), (⟨b.ax + 1, b.view, b.tang⟩, 2)]
-    fits := fun _ => true
-    sameDataVoxelOrigin := fun a b => a == b }
+    fits := fun _ => true }
 
 def evsGood : List (Ev Bool) :=
   [.setUp false, .get ⟨-1, 6, 2, -1, 0⟩, .storeOnlyBasic false, .get ⟨-1, 6, 2, -1, 0⟩, .get ⟨1, 2, 0, 1, 0⟩,
